@@ -84,7 +84,7 @@ def gen(rng, n_cases, max_n=40):
 
 
 def case_from_record(rec):
-    return {"label": rec.cfg["label"], "n_remove": rec.cfg["n_remove"], "F": rec.inp["F"]}
+    return {"label": rec.cfg["label"], "n_remove": rec.cfg["n_remove"], "F": rec.inp["F"], "exact_ties": rec.cfg.get("exact_ties", False)}
 
 
 W_TIED = np.array([[0., 2, 6], [0, 6, 3], [2, 1, 6], [3, 0, 2], [3, 6, 1], [4, 2, 0], [6, 0, 1]])      # tied maxima, 3 objectives
@@ -106,7 +106,7 @@ def corpus(pid):
            {"label": "2nn", "n_remove": 4, "F": F8}]
     for lab in ("mnn", "2nn", "pcd"):
         for nr in (2, 3, 4):
-            out.append({"label": lab, "n_remove": nr, "F": W_LINE})     # F5 ties
+            out.append({"label": lab, "n_remove": nr, "F": W_LINE, "exact_ties": True})     # F5 ties
         out.append({"label": lab, "n_remove": 0, "F": W_CONST})         # F5 zero range
         out.append({"label": lab, "n_remove": 2, "F": W_CONST})
     out.append({"label": "pcd", "n_remove": 0, "F": W_F7})               # F7
@@ -170,6 +170,8 @@ def run_batch(cases):
     for i, (c, p) in enumerate(zip(cases, preds)):
         F = np.array(c["F"], dtype=float)
         rec = Record(NAME, {"label": c["label"], "n_remove": int(c["n_remove"])}, {"F": F})
+        if c.get("exact_ties"):
+            rec.cfg["exact_ties"] = True
         rec.model = p
         rec.out = {"c_raw": None, "f_raw": None, "c_wrap": None, "f_wrap": None, "skipped": []}
         n, M = F.shape if F.ndim == 2 else (0, 0)
@@ -442,6 +444,15 @@ def oracle_C14(rec):
             continue
         if rec.model and rec.model.get("ties") and label in ("mnn", "2nn") and rec.cfg["n_remove"] > 1:
             continue        # argpartition tie order unspecified
+        F = rec.inp["F"]
+        if rec.cfg["n_remove"] > 1 and not rec.cfg.get("exact_ties") and len(F) > F.shape[1] \
+                and len(np.unique(F, axis=0)) == len(F):
+            # the engines sum / divide in different orders: when two live points are tied up to rounding at
+            # some removal step, either may legitimately be removed ("up to floating-point rounding");
+            # exact ties that both engines compute identically are covered by the corpus witnesses
+            _, tie_free, _ = ref_greedy(F, label, rec.cfg["n_remove"])
+            if not tie_free:
+                continue
         if va.shape != vb.shape or (np.isinf(va) != np.isinf(vb)).any():
             bad.append("%s (%s vs %s): infinite values at different points" % (label, a, b))
             continue
